@@ -1271,6 +1271,7 @@ fn c10_base(r: &mut Prng) -> C10Plan {
         seqn: vec![],
         bystander_bytes: 20 + r.below(60),
         garbage: if r.chance(1, 5) { Some(r.below(6) as u8) } else { None },
+        victim_shutdown: r.chance(1, 3),
     }
 }
 impl Family for C10Family {
